@@ -105,3 +105,44 @@ def to_exact(m, meta):
     else:
         ok = got[0] == "ok" and got[1].dimensions == tuple(exp[1]) and got[1].fill == p.fill
     return {"reproduced": not ok, "input": [repr(p), tuple(rs)], "observed": repr(got), "expected": repr(exp)}
+
+
+def pad(m, meta):
+    """real Padding.pad on a block of distinct characters, interpreted by the concrete VT model: every cell of the padded
+    box is either the fill (or untouched for an empty fill) or the render's cell at the offset given by the margins"""
+    import itertools
+    from term_image.padding import ExactPadding
+    from term_image.geometry import Size
+    from replay.vt import VT
+    base = [max(ival(m, k, 0), 0) for k in ("left", "top", "right", "bottom")]
+    w0, h0 = max(ival(m, "rs_w", 2), 1), max(ival(m, "rs_h", 2), 1)
+    cands = [(tuple(base), w0, h0)] + [((l, t, r, b), w, h) for l, t, r, b, w, h in itertools.product((0, 1, 2), (0, 1, 2), (0, 1, 3), (0, 2), (1, 3), (1, 2))]
+    for (l, t, r, b), w, h in cands:
+        for fill in (" ", "x", ""):
+            render = "\n".join("".join(chr(ord("a") + (i * w + j) % 26) for j in range(w)) for i in range(h))
+            p = ExactPadding(l, t, r, b, fill)
+            out = p.pad(render, Size(w, h))
+            PW, PH = l + w + r, t + h + b
+            vt = VT(width=PW + 3, height=PH + 3, row=1, col=0)
+            vt.feed(out)
+            bad = []
+            if (l, t, r, b) == (0, 0, 0, 0) and out is not render:
+                bad.append("unpadded render not returned as is")
+            for i in range(PH):
+                for j in range(PW + 3):
+                    cell = vt.cells.get((1 + i, j))
+                    inside = t <= i < t + h and l <= j < l + w
+                    if j >= PW:
+                        exp = None
+                    elif inside:
+                        exp = render.split("\n")[i - t][j - l]
+                    else:
+                        exp = fill or None
+                    got = cell[1] if cell else None
+                    if got != exp:
+                        bad.append(((i, j), got, exp))
+            if out.count("\n") != PH - 1 or vt.row != PH or vt.wrapped or vt.incomplete:
+                bad.append(("geometry", out.count("\n"), vt.row))
+            if bad:
+                return {"reproduced": True, "input": {"padding": (l, t, r, b), "fill": fill, "render_size": (w, h)}, "observed": bad[:5]}
+    return {"reproduced": False, "note": f"{len(cands) * 3} paddings tried around the model"}
